@@ -370,7 +370,7 @@ Section FixedEraseRep.
     (forall k, (k < to \/ from <= k)%nat -> (k < n)%nat -> elem_at L m0 (S * Z.of_nat k) (nth k l [])) ->
     let v' := resize L (fst (move_forward L (set_mem v m0) (Z.of_nat from) (Z.of_nat to))) (Z.of_nat (n - (from - to))) in
     Rep L v' (firstn to l ++ skipn from l) /\ v_cap v' = v_cap v /\ v_fixed v' = v_fixed v /\
-    v_bid v' = v_bid v /\ v_stride v' = v_stride v.
+    v_bid v' = v_bid v /\ v_stride v' = v_stride v /\ v_units v' = v_units v.
   Proof.
     intros Htf Hfn Hm0. cbv zeta. destruct fixed_loc as (Hcnt & Hoffs & Hst).
     unfold move_forward. rewrite Hnt.
@@ -411,7 +411,7 @@ Section FixedEraseRep.
   Theorem erase_rep_fixed_nt i : (i + 1 < n)%nat ->
     let v' := fst (erase L v (Z.of_nat i)) in
     Rep L v' (remove_range i (Datatypes.S i) l) /\ v_cap v' = v_cap v /\ v_fixed v' = v_fixed v /\
-    v_bid v' = v_bid v /\ v_stride v' = v_stride v.
+    v_bid v' = v_bid v /\ v_stride v' = v_stride v /\ v_units v' = v_units v.
   Proof.
     intros Hi. cbv zeta. unfold erase. rewrite vsize_n.
     destruct (destruct_range_fixed i 1 i (v_mem v) (le_n _) ltac:(lia)
@@ -430,7 +430,7 @@ Section FixedEraseRep.
   Theorem erase_range_rep_fixed_nt i j : (i <= j)%nat -> (j < n \/ i = j)%nat -> (j <= n)%nat ->
     let v' := fst (erase_range L v (Z.of_nat i) (Z.of_nat j)) in
     Rep L v' (remove_range i j l) /\ v_cap v' = v_cap v /\ v_fixed v' = v_fixed v /\
-    v_bid v' = v_bid v /\ v_stride v' = v_stride v.
+    v_bid v' = v_bid v /\ v_stride v' = v_stride v /\ v_units v' = v_units v.
   Proof.
     intros Hij Hj Hjn. cbv zeta. unfold erase_range. rewrite vsize_n.
     destruct (Nat.eq_dec i j) as [->|Hne].
